@@ -155,7 +155,9 @@ def find_value_printer(ctx):
             if isinstance(st, ast.If):
                 ts = {d for n in ast.walk(st.test) if isinstance(n, ast.Call) and isinstance(n.func, ast.Name) and n.func.id == "isinstance" and len(n.args) == 2
                       for d in ([e.id for e in n.args[1].elts if isinstance(e, ast.Name)] if isinstance(n.args[1], ast.Tuple) else [n.args[1].id] if isinstance(n.args[1], ast.Name) else [])}
-                if "float" in ts:
+                # the branch that prints (a type test that only normalises the
+                # value, with no return in its body, is not a printer)
+                if "float" in ts and any(isinstance(s, ast.Return) and s.value is not None for s in iter_stmts(st.body)):
                     cands.append((f, st))
     if not cands:
         raise AnalysisError("C01.1: no generator function dispatches on isinstance(val, float) (value printer vanished)")
